@@ -275,6 +275,8 @@ def _gen_section(
         elif kind in ("fixarr", "vararr"):
             tn, b = _primitive(r)
             cap = r.between(1, p.max_array)
+            if b < 8 and r.chance(1, 3):
+                cap = r.choice([9, 17, 40, 70])  # bit-packed arrays spanning several bytes
             if kind == "fixarr":
                 lines.append("%s[%d] %s" % (tn, cap, name))
             elif r.chance(1, 3):
